@@ -226,7 +226,7 @@ fn helper_op(rng: &mut Rng, fresh: bool) -> Op {
 /// A family of related operations, shaped so that state leaking from one call to another would show.
 fn family(rng: &mut Rng, corpus: &Corpus, deep_levels: (usize, usize), out: &mut Vec<Op>) -> &'static str {
     let fresh = rng.chance(1, 4);
-    match rng.weighted(&[14, 14, 10, 8, 8, 8, 6, 6, 5, 5, 6, 2, 6, 6]) {
+    match rng.weighted(&[14, 14, 10, 8, 8, 8, 6, 6, 5, 5, 6, 2, 6, 6, 6, 3]) {
         0 => {
             // same rule x different data (corpus rule)
             let (r, d) = rng.pick(&corpus.cases).clone();
@@ -426,6 +426,10 @@ fn family(rng: &mut Rng, corpus: &Corpus, deep_levels: (usize, usize), out: &mut
                 };
                 out.push(Op::apply(&t(&r), &dt, false));
             }
+            // ... and ask for the first batch again once the later ones have been through
+            if let Some(f0) = out.iter().find(|o| o.is_apply() && o.args[1] == dt).cloned() {
+                out.push(f0);
+            }
             "wide-rule-many-distinct-paths"
         }
         12 => {
@@ -470,6 +474,56 @@ fn family(rng: &mut Rng, corpus: &Corpus, deep_levels: (usize, usize), out: &mut
                 out.push(Op::apply(&t(&r), &dt, rng.chance(1, 5)));
             }
             "repeated-path-per-caller"
+        }
+        14 => {
+            // one iteration operator nested inside another, in both orders (per-operator locks taken in
+            // opposite orders, scratch shared between an outer and an inner pass)
+            let iters: &[&str] = &["map", "filter", "all", "some", "none", "reduce"];
+            let small = |rng: &mut Rng| Value::Array((0..rng.range(1, 3)).map(|_| gen::atom(rng)).collect());
+            let mk = |rng: &mut Rng, outer: &str, inner: &str| -> Value {
+                let leaf = match rng.below(3) {
+                    0 => json!({"var": ""}),
+                    1 => json!({"!!": [{"var": ""}]}),
+                    _ => json!({"cat": [{"var": ""}, "x"]}),
+                };
+                let inner_rule = if inner == "reduce" { json!({"reduce": [small(rng), {"var": "current"}, 0]}) } else { json!({ inner: [small(rng), leaf] }) };
+                if outer == "reduce" {
+                    json!({"reduce": [small(rng), inner_rule, 0]})
+                } else {
+                    json!({ outer: [small(rng), inner_rule] })
+                }
+            };
+            let a = *rng.pick(iters);
+            let b = *rng.pick(iters);
+            let d = t(&gen::data(rng, 1));
+            for _ in 0..rng.range(1, 2) {
+                out.push(Op::apply(&t(&mk(rng, a, b)), &d, rng.chance(1, 4)));
+                out.push(Op::apply(&t(&mk(rng, b, a)), &d, rng.chance(1, 4)));
+            }
+            "nested-iteration-both-orders"
+        }
+        15 => {
+            // iteration over collections of 64-400 elements (paths that only engage above a size:
+            // chunking, worker threads, pre-sized buffers), with an error or a deciding element somewhere
+            let n = *rng.pick(&[64usize, 65, 100, 130, 257, 400]);
+            let special = rng.below(n);
+            let xs: Vec<Value> = (0..n)
+                .map(|i| if i == special { rng.pick(&[json!("x"), json!(null), json!(-1), json!([1]), json!(0)]).clone() } else { json!((i % 17) as i64 + 1) })
+                .collect();
+            let d = t(&json!({"xs": xs, "k": 3}));
+            for _ in 0..rng.range(1, 2) {
+                let body = match rng.below(6) {
+                    0 => json!({"+": [{"var": ""}, 1]}),
+                    1 => json!({">": [{"var": ""}, 0]}),
+                    2 => json!({"*": [{"var": ""}, {"var": ""}]}),
+                    3 => json!({"%": [{"var": ""}, 2]}),
+                    4 => json!({"log": {"var": ""}}),
+                    _ => json!({"cat": [{"var": ""}, "!"]}),
+                };
+                let op = *rng.pick(&["map", "filter", "all", "some", "none"]);
+                out.push(Op::apply(&t(&json!({ op: [{"var": "xs"}, body] })), &d, rng.chance(1, 5)));
+            }
+            "big-collection-iteration"
         }
         _ => {
             // structurally equal values at distinct addresses: same texts, one shared, one fresh
@@ -993,9 +1047,23 @@ pub fn exec_in_child(run: &E1Run, isos: &[Vec<Arc<Iso>>]) -> RunReport {
         unsafe {
             libc::close(rfd);
             let cap = oracle::memfd("run-raw");
+            let cap_err = oracle::memfd("run-raw-err");
             libc::dup2(cap, 1);
-            libc::dup2(cap, 2);
-            let rep = child_body(run, isos, cap);
+            libc::dup2(cap_err, 2);
+            let mut rep = child_body(run, isos, cap);
+            let err_bytes = oracle::read_fd_all(cap_err);
+            if !err_bytes.is_empty() && rep.stalled.is_none() && !rep.violations.iter().any(|v| v.class == "panic") {
+                rep.violations.push(Violation {
+                    property: "C17".into(),
+                    class: "writes-to-stderr".into(),
+                    thread: 0,
+                    op_idx: 0,
+                    op: None,
+                    expected: "nothing on fd 2 during the run".into(),
+                    got: String::from_utf8_lossy(&err_bytes).chars().take(300).collect(),
+                    needs: "history-or-schedule".into(),
+                });
+            }
             let bytes = serde_json::to_vec(&rep.to_json()).unwrap();
             let mut off = 0;
             while off < bytes.len() {
@@ -1090,6 +1158,18 @@ pub fn isolate(run: &E1Run, oracle: &mut Oracle) -> (Vec<Vec<Arc<Iso>>>, Vec<Vio
                     op: Some(op.clone()),
                     expected: "Ok(..) or Err(..)".into(),
                     got: how.clone(),
+                    needs: "input-only".into(),
+                });
+            }
+            if !iso.raw_err.is_empty() && !iso.res.is_panic() {
+                v.push(Violation {
+                    property: "C17".into(),
+                    class: "writes-to-stderr".into(),
+                    thread: ti,
+                    op_idx: oi,
+                    op: Some(op.clone()),
+                    expected: "nothing on fd 2: the only visible effect of a call is the line of each log".into(),
+                    got: iso.raw_err.chars().take(300).collect(),
                     needs: "input-only".into(),
                 });
             }
